@@ -26,13 +26,15 @@ RULE = ('case = one suggestion returned by ProofState.search_method for (proof s
         '(all 42 theories) with every open goal line and fact subsets of size <= 2 among the visible lines (always including the '
         'recorded selection), plus generated states built from hint theorems of logic/nat/set/list/real (goal = instance of the '
         'conclusion / of the rewritten side, facts = permuted subsets of the premises with distractors, quantified copies of the '
-        'theorem as facts, exists/forall goals and facts); distinct = hash of (state, goal, facts, method, theorem, sym, parameters); '
+        'theorem as facts, exists/forall goals and facts, non-linear instances), each continued for up to 2 further steps from the '
+        'result of a successful suggestion (generated editing sequences, previous fact selection re-used); distinct = hash of (state, goal, facts, method, theorem, sym, parameters); '
         'non-trivial = the suggestion was applied and judged')
 ASSUMPTIONS = ['front-end protocol read from app/src/components/proof/ProofArea.vue: sig parameters missing from the suggestion are '
                'queried before /api/apply-method is called; a query answer is merged into the step and the call repeated',
                'Z3 stubbed (z3wrapper.check_z3 = False) as in server.monitor; Z3Method.search returns [] so it is never suggested',
                'an application that needed an invented term parameter (s, param_*) is never counted as failing outright',
-               'visibility of earlier lines re-implemented from ItemID.can_depend_on; trivial pattern re-implemented on shadows']
+               'visibility of earlier lines re-implemented from ItemID.can_depend_on; trivial pattern re-implemented on shadows',
+               'an exception raised by search_method itself returns no suggestion: counted (search_raised:*) and noted, not judged']
 REQUIRED = {'quick': {'searches': 900, 'suggestions_applied': 2600, 'applied_ok': 2500, 'goal_adverts_checked': 1000,
                       'fact_adverts_checked': 800, 'solving_adverts_checked': 110, 'asked_for_parameters': 450,
                       'gen_states': 200, 'gen_followup_states': 60, 'lib_states': 150, 'searches_with_2_facts': 130,
@@ -424,7 +426,7 @@ def judge_application(ctx, state, gid, r, supplied, invented, wit):
 
 
 # ------------------------------------------------------------------ exploring one state
-def explore_state(ctx, state, wit, budget, rng, must=None, max_goals=3, n_single=2, n_pair=2, cost=1.0):
+def explore_state(ctx, state, wit, budget, rng, must=None, max_goals=3, n_single=2, n_pair=2, cost=1.0, extra_sel=None):
     """search + judge on one state.  must: (goal_id str, fact_ids list) of the recorded selection.  budget and the
     return value are in cost units: one search = cost * (number of permutations of the facts)."""
     used = 0
@@ -450,6 +452,8 @@ def explore_state(ctx, state, wit, budget, rng, must=None, max_goals=3, n_single
             except Exception:
                 pass
         ids = [str(it.id) for it in vis]
+        if extra_sel and all(f in ids for f in extra_sel) and list(extra_sel) not in sels:
+            sels.append(list(extra_sel))      # the selection of the previous step again (nested case analyses etc.)
         # prefer the nearest lines (as a user would) but keep some far ones
         near = ids[-6:]
         for _ in range(n_single):
@@ -598,8 +602,14 @@ def instantiate(th, rng, ground_types):
         tyinst[stv.name] = rng.choice([TVar(stv.name)] * 2 + ground_types)
     prop = prop.subst_type(tyinst)
     inst = Inst()
-    for sv in prop.get_svars():
+    svs = prop.get_svars()
+    for sv in svs:
         inst[sv.name] = Var(sv.name, sv.T)
+    if len(svs) >= 2 and rng.random() < 0.3:
+        # non-linear instance: identify two schematic variables of the same type
+        a, b = rng.sample(svs, 2)
+        if a.T == b.T:
+            inst[b.name] = inst[a.name]
     return prop.subst(inst)
 
 
@@ -833,7 +843,8 @@ def explore_gen_state(ctx, state, wit, nfacts, rng, follow=2):
             for p in path), state_key=(wit['state_key'], json.dumps(path, sort_keys=True, default=str)))
         ctx.count('gen_followup_states')
         Stats.ok_states = []
-        explore_state(ctx, st, w2, 5, rng, max_goals=2, n_single=2, n_pair=1)
+        last = [p['fact_ids'] for p in path if p.get('fact_ids')]
+        explore_state(ctx, st, w2, 6, rng, max_goals=2, n_single=2, n_pair=1, extra_sel=last[-1] if last else None)
     Stats.ok_states = None
 
 
